@@ -570,6 +570,7 @@ func (e *Engine) installSpecObjs(pkg *types.Package) {
 	mk("itPos", []types.Type{anyT}, types.Typ[types.Int], false)
 	mk("itLen", []types.Type{anyT}, types.Typ[types.Int], false)
 	mk("itElem", []types.Type{anyT, types.Typ[types.Int]}, anyT, false)
+	mk("itIndexOfKey", []types.Type{anyT, types.Typ[types.String]}, types.Typ[types.Int], false)
 	mk("committed", []types.Type{anyT}, boolT, false)
 	mk("aborted", []types.Type{anyT}, boolT, false)
 }
